@@ -55,7 +55,7 @@ theorem apply_slide_right_b (basis : Array W) (p : Pos) (x y : Nat) (hx : x + 1 
   · unfold Pos.apply
     simp [Facts.mtSlideRight, Facts.mtSlideLeft, Facts.mtSlideUp, Facts.mtSlideDown, Facts.mtPass, Facts.mtPlaceFlat,
       Facts.mtPlaceStanding, Facts.mtPlaceCapstone,
-      hw, h2, hx', hy', hxn, hyn, hidx, elems_one, hown, htop, hsz, hh1, slideLoop, slideStep, hidx2, hb1, hb2, hb3, hb4,
+      hw, h2, hx', hy', hxn, hyn, hidx, elems_one, hown, htop, hsz, hh1, slideLoop, slideStep, dispatch, openingRule, slideFrom, liftFrom, dropOn, enterSquare, Pos.setStack, hidx2, hb1, hb2, hb3, hb4,
       c1, c2, bind, Except.bind]
     apply finish_exists
     intro wg bg hwg hbg
@@ -64,7 +64,7 @@ theorem apply_slide_right_b (basis : Array W) (p : Pos) (x y : Nat) (hx : x + 1 
     · unfold Pos.apply
       simp [Facts.mtSlideRight, Facts.mtSlideLeft, Facts.mtSlideUp, Facts.mtSlideDown, Facts.mtPass, Facts.mtPlaceFlat,
         Facts.mtPlaceStanding, Facts.mtPlaceCapstone,
-        hw, h2, hx', hy', hxn, hyn, hidx, elems_one, hown, htop, hsz, hh1, hh0, hb, slideLoop, slideStep, hidx2, hb1, hb2,
+        hw, h2, hx', hy', hxn, hyn, hidx, elems_one, hown, htop, hsz, hh1, hh0, hb, slideLoop, slideStep, dispatch, openingRule, slideFrom, liftFrom, dropOn, enterSquare, Pos.setStack, hidx2, hb1, hb2,
         hb3, hb4, c1, c2, bind, Except.bind]
       apply finish_exists
       intro wg bg hwg hbg
@@ -72,7 +72,7 @@ theorem apply_slide_right_b (basis : Array W) (p : Pos) (x y : Nat) (hx : x + 1 
     · unfold Pos.apply
       simp [Facts.mtSlideRight, Facts.mtSlideLeft, Facts.mtSlideUp, Facts.mtSlideDown, Facts.mtPass, Facts.mtPlaceFlat,
         Facts.mtPlaceStanding, Facts.mtPlaceCapstone,
-        hw, h2, hx', hy', hxn, hyn, hidx, elems_one, hown, htop, hsz, hh1, hh0, hb, slideLoop, slideStep, hidx2, hb1, hb2,
+        hw, h2, hx', hy', hxn, hyn, hidx, elems_one, hown, htop, hsz, hh1, hh0, hb, slideLoop, slideStep, dispatch, openingRule, slideFrom, liftFrom, dropOn, enterSquare, Pos.setStack, hidx2, hb1, hb2,
         hb3, hb4, c1, c2, bind, Except.bind]
       apply finish_exists
       intro wg bg hwg hbg
@@ -126,7 +126,7 @@ theorem apply_slide_left_b (basis : Array W) (p : Pos) (x y : Nat) (hx0' : 1 ≤
   · unfold Pos.apply
     simp [Facts.mtSlideRight, Facts.mtSlideLeft, Facts.mtSlideUp, Facts.mtSlideDown, Facts.mtPass, Facts.mtPlaceFlat,
       Facts.mtPlaceStanding, Facts.mtPlaceCapstone,
-      hw, h2, hx', hy', hxn, hyn, hidx, elems_one, hown, htop, hsz, hh1, slideLoop, slideStep, hidx2, hb1, hb2, hb3, hb4,
+      hw, h2, hx', hy', hxn, hyn, hidx, elems_one, hown, htop, hsz, hh1, slideLoop, slideStep, dispatch, openingRule, slideFrom, liftFrom, dropOn, enterSquare, Pos.setStack, hidx2, hb1, hb2, hb3, hb4,
       c1, c2, bind, Except.bind]
     apply finish_exists
     intro wg bg hwg hbg
@@ -135,7 +135,7 @@ theorem apply_slide_left_b (basis : Array W) (p : Pos) (x y : Nat) (hx0' : 1 ≤
     · unfold Pos.apply
       simp [Facts.mtSlideRight, Facts.mtSlideLeft, Facts.mtSlideUp, Facts.mtSlideDown, Facts.mtPass, Facts.mtPlaceFlat,
         Facts.mtPlaceStanding, Facts.mtPlaceCapstone,
-        hw, h2, hx', hy', hxn, hyn, hidx, elems_one, hown, htop, hsz, hh1, hh0, hb, slideLoop, slideStep, hidx2, hb1, hb2,
+        hw, h2, hx', hy', hxn, hyn, hidx, elems_one, hown, htop, hsz, hh1, hh0, hb, slideLoop, slideStep, dispatch, openingRule, slideFrom, liftFrom, dropOn, enterSquare, Pos.setStack, hidx2, hb1, hb2,
         hb3, hb4, c1, c2, bind, Except.bind]
       apply finish_exists
       intro wg bg hwg hbg
@@ -143,7 +143,7 @@ theorem apply_slide_left_b (basis : Array W) (p : Pos) (x y : Nat) (hx0' : 1 ≤
     · unfold Pos.apply
       simp [Facts.mtSlideRight, Facts.mtSlideLeft, Facts.mtSlideUp, Facts.mtSlideDown, Facts.mtPass, Facts.mtPlaceFlat,
         Facts.mtPlaceStanding, Facts.mtPlaceCapstone,
-        hw, h2, hx', hy', hxn, hyn, hidx, elems_one, hown, htop, hsz, hh1, hh0, hb, slideLoop, slideStep, hidx2, hb1, hb2,
+        hw, h2, hx', hy', hxn, hyn, hidx, elems_one, hown, htop, hsz, hh1, hh0, hb, slideLoop, slideStep, dispatch, openingRule, slideFrom, liftFrom, dropOn, enterSquare, Pos.setStack, hidx2, hb1, hb2,
         hb3, hb4, c1, c2, bind, Except.bind]
       apply finish_exists
       intro wg bg hwg hbg
@@ -198,7 +198,7 @@ theorem apply_slide_up_b (basis : Array W) (p : Pos) (x y : Nat) (hx : x < p.cfg
   · unfold Pos.apply
     simp [Facts.mtSlideRight, Facts.mtSlideLeft, Facts.mtSlideUp, Facts.mtSlideDown, Facts.mtPass, Facts.mtPlaceFlat,
       Facts.mtPlaceStanding, Facts.mtPlaceCapstone,
-      hw, h2, hx', hy', hxn, hyn, hidx, elems_one, hown, htop, hsz, hh1, slideLoop, slideStep, hidx2, hb1, hb2, hb3, hb4,
+      hw, h2, hx', hy', hxn, hyn, hidx, elems_one, hown, htop, hsz, hh1, slideLoop, slideStep, dispatch, openingRule, slideFrom, liftFrom, dropOn, enterSquare, Pos.setStack, hidx2, hb1, hb2, hb3, hb4,
       c1, c2, bind, Except.bind]
     apply finish_exists
     intro wg bg hwg hbg
@@ -207,7 +207,7 @@ theorem apply_slide_up_b (basis : Array W) (p : Pos) (x y : Nat) (hx : x < p.cfg
     · unfold Pos.apply
       simp [Facts.mtSlideRight, Facts.mtSlideLeft, Facts.mtSlideUp, Facts.mtSlideDown, Facts.mtPass, Facts.mtPlaceFlat,
         Facts.mtPlaceStanding, Facts.mtPlaceCapstone,
-        hw, h2, hx', hy', hxn, hyn, hidx, elems_one, hown, htop, hsz, hh1, hh0, hb, slideLoop, slideStep, hidx2, hb1, hb2,
+        hw, h2, hx', hy', hxn, hyn, hidx, elems_one, hown, htop, hsz, hh1, hh0, hb, slideLoop, slideStep, dispatch, openingRule, slideFrom, liftFrom, dropOn, enterSquare, Pos.setStack, hidx2, hb1, hb2,
         hb3, hb4, c1, c2, bind, Except.bind]
       apply finish_exists
       intro wg bg hwg hbg
@@ -215,7 +215,7 @@ theorem apply_slide_up_b (basis : Array W) (p : Pos) (x y : Nat) (hx : x < p.cfg
     · unfold Pos.apply
       simp [Facts.mtSlideRight, Facts.mtSlideLeft, Facts.mtSlideUp, Facts.mtSlideDown, Facts.mtPass, Facts.mtPlaceFlat,
         Facts.mtPlaceStanding, Facts.mtPlaceCapstone,
-        hw, h2, hx', hy', hxn, hyn, hidx, elems_one, hown, htop, hsz, hh1, hh0, hb, slideLoop, slideStep, hidx2, hb1, hb2,
+        hw, h2, hx', hy', hxn, hyn, hidx, elems_one, hown, htop, hsz, hh1, hh0, hb, slideLoop, slideStep, dispatch, openingRule, slideFrom, liftFrom, dropOn, enterSquare, Pos.setStack, hidx2, hb1, hb2,
         hb3, hb4, c1, c2, bind, Except.bind]
       apply finish_exists
       intro wg bg hwg hbg
@@ -271,7 +271,7 @@ theorem apply_slide_down_b (basis : Array W) (p : Pos) (x y : Nat) (hx : x < p.c
   · unfold Pos.apply
     simp [Facts.mtSlideRight, Facts.mtSlideLeft, Facts.mtSlideUp, Facts.mtSlideDown, Facts.mtPass, Facts.mtPlaceFlat,
       Facts.mtPlaceStanding, Facts.mtPlaceCapstone,
-      hw, h2, hx', hy', hxn, hyn, hidx, elems_one, hown, htop, hsz, hh1, slideLoop, slideStep, hidx2, hb1, hb2, hb3, hb4,
+      hw, h2, hx', hy', hxn, hyn, hidx, elems_one, hown, htop, hsz, hh1, slideLoop, slideStep, dispatch, openingRule, slideFrom, liftFrom, dropOn, enterSquare, Pos.setStack, hidx2, hb1, hb2, hb3, hb4,
       c1, c2, bind, Except.bind]
     apply finish_exists
     intro wg bg hwg hbg
@@ -280,7 +280,7 @@ theorem apply_slide_down_b (basis : Array W) (p : Pos) (x y : Nat) (hx : x < p.c
     · unfold Pos.apply
       simp [Facts.mtSlideRight, Facts.mtSlideLeft, Facts.mtSlideUp, Facts.mtSlideDown, Facts.mtPass, Facts.mtPlaceFlat,
         Facts.mtPlaceStanding, Facts.mtPlaceCapstone,
-        hw, h2, hx', hy', hxn, hyn, hidx, elems_one, hown, htop, hsz, hh1, hh0, hb, slideLoop, slideStep, hidx2, hb1, hb2,
+        hw, h2, hx', hy', hxn, hyn, hidx, elems_one, hown, htop, hsz, hh1, hh0, hb, slideLoop, slideStep, dispatch, openingRule, slideFrom, liftFrom, dropOn, enterSquare, Pos.setStack, hidx2, hb1, hb2,
         hb3, hb4, c1, c2, bind, Except.bind]
       apply finish_exists
       intro wg bg hwg hbg
@@ -288,7 +288,7 @@ theorem apply_slide_down_b (basis : Array W) (p : Pos) (x y : Nat) (hx : x < p.c
     · unfold Pos.apply
       simp [Facts.mtSlideRight, Facts.mtSlideLeft, Facts.mtSlideUp, Facts.mtSlideDown, Facts.mtPass, Facts.mtPlaceFlat,
         Facts.mtPlaceStanding, Facts.mtPlaceCapstone,
-        hw, h2, hx', hy', hxn, hyn, hidx, elems_one, hown, htop, hsz, hh1, hh0, hb, slideLoop, slideStep, hidx2, hb1, hb2,
+        hw, h2, hx', hy', hxn, hyn, hidx, elems_one, hown, htop, hsz, hh1, hh0, hb, slideLoop, slideStep, dispatch, openingRule, slideFrom, liftFrom, dropOn, enterSquare, Pos.setStack, hidx2, hb1, hb2,
         hb3, hb4, c1, c2, bind, Except.bind]
       apply finish_exists
       intro wg bg hwg hbg
